@@ -42,23 +42,34 @@ func (c *zchan) take() (value, bool) {
 	return nil, false // closed
 }
 
-// runPending runs every recorded goroutine to completion or to its first blocking operation.
+// runOnePending runs the oldest recorded goroutine to completion or to its first blocking
+// operation (where it is abandoned: there is no resumption). Blocking operations call it
+// repeatedly, re-checking readiness in between, so a harness can script an interleaving by
+// recording one goroutine per message (DESIGN §3.12 T3: nested run-to-block).
+func runOnePending(i *interpreter) bool {
+	if len(i.pending) == 0 {
+		return false
+	}
+	g := i.pending[0]
+	i.pending = i.pending[1:]
+	func() {
+		defer func() {
+			if r := recover(); r != nil {
+				if _, ok := r.(blocked); !ok {
+					panic(r)
+				}
+			}
+		}()
+		call(i, nil, token.NoPos, g.fn, g.args)
+	}()
+	return true
+}
+
+// runPending runs every recorded goroutine (vrtRunPending, WaitGroup.Wait).
 func runPending(i *interpreter) bool {
 	ran := false
-	for len(i.pending) > 0 {
-		g := i.pending[0]
-		i.pending = i.pending[1:]
+	for runOnePending(i) {
 		ran = true
-		func() {
-			defer func() {
-				if r := recover(); r != nil {
-					if _, ok := r.(blocked); !ok {
-						panic(r)
-					}
-				}
-			}()
-			call(i, nil, token.NoPos, g.fn, g.args)
-		}()
 	}
 	return ran
 }
@@ -68,7 +79,7 @@ func chanRecv(i *interpreter, c *zchan) (value, bool) {
 		if c.ready() {
 			return c.take()
 		}
-		if !runPending(i) {
+		if !runOnePending(i) {
 			break
 		}
 	}
@@ -94,7 +105,7 @@ func doSelect(fr *frame, instr *ssa.Select) value {
 	}
 	chosen := pick()
 	if chosen < 0 && instr.Blocking {
-		for chosen < 0 && runPending(fr.i) {
+		for chosen < 0 && runOnePending(fr.i) {
 			chosen = pick()
 		}
 		if chosen < 0 {
